@@ -77,7 +77,8 @@ static inline std::string hexs(const std::vector<unsigned char> &x) { return hex
 struct Z { // RAII mpz
 	mpz_t v;
 	Z() { mpz_init(v); }
-	Z(long x) { mpz_init_set_si(v, x); }
+	explicit Z(long x) { mpz_init_set_si(v, x); }
+	explicit Z(int x) { mpz_init_set_si(v, x); }
 	Z(const Z &o) { mpz_init_set(v, o.v); }
 	Z(const char *s, int base = 10) { mpz_init_set_str(v, s, base); }
 	Z &operator=(const Z &o) { mpz_set(v, o.v); return *this; }
